@@ -4,7 +4,7 @@ use crate::langs::LangId;
 use crate::tm::*;
 use proptest::prelude::*;
 use serde::{Deserialize, Serialize};
-use std::collections::BTreeMap;
+use std::collections::{BTreeMap, BTreeSet};
 
 #[derive(Clone, Debug, PartialEq, Eq, Hash, Serialize, Deserialize)]
 pub enum HOp {
@@ -77,8 +77,8 @@ pub struct HistCfg {
     pub lang: LangId,
     pub gen: GenCfg,
     pub max_ops: usize,
-    /// weights of the op kinds: add, unrelated, permuted, renamed, context, reorder, existing, congruent-parents, symmetric-then-redundant, improving-child cascade, symmetric-class-used-twice, symmetric-then-several-slots-redundant
-    pub weights: [usize; 12],
+    /// weights of the op kinds: add, unrelated, permuted, renamed, context, reorder, existing, congruent-parents, symmetric-then-redundant, improving-child cascade, symmetric-class-used-twice, symmetric-then-several-slots-redundant, layered-merge
+    pub weights: [usize; 13],
     pub namings: Vec<Naming>,
 }
 
@@ -93,7 +93,7 @@ impl HistCfg {
                 ..GenCfg::default()
             },
             max_ops: 6,
-            weights: [2, 2, 3, 3, 3, 2, 3, 2, 2, 2, 2, 1],
+            weights: [2, 2, 3, 3, 3, 2, 3, 2, 2, 2, 2, 1, 2],
             namings: vec![Naming::Alpha],
         }
     }
@@ -487,6 +487,120 @@ pub fn decode_hist_from(cfg: &HistCfg, chunks: &[Vec<u16>], naming_choice: u16, 
                 if !parent_first {
                     let t = mk_parent(&mut src);
                     push_add(t, &mut ops, &mut terms, &mut n_terms);
+                }
+            }
+            12 => {
+                // layered merge: two k-slot leaves A, B, each with 0-2 symmetry generators, parents ctx[A pi1] / ctx[B pi2] over them
+                // (same context, so that they become congruent when A = B), optionally a further term T united with the parent
+                // (the parent's e-node then lives in a class it was moved into), optionally a grandparent over the parent; the
+                // events "generators of A", "generators of B", "parents", "T", "grandparent", "A = B" happen in a random order:
+                // symmetries inherited through a merge or discovered through a moved e-node have to reach classes two levels up
+                let kmax = cfg.gen.max_fv.max(3).min(4);
+                let has = |n: &str| sig.ops.iter().any(|o| o.name == n);
+                if !(has("g3") && has("h3") && has("w") && has("p") && has("v") && has("lam")) {
+                    let t = mk(&mut src);
+                    push_add(t, &mut ops, &mut terms, &mut n_terms);
+                    continue;
+                }
+                let k = if kmax >= 4 && has("g4") && has("h4") && src.coin(1, 3) { 4 } else { 3 };
+                let (ga, gb) = if k == 3 { ("g3", "h3") } else { ("g4", "h4") };
+                let (ga, gb) = if src.coin(1, 4) { (ga, ga) } else if src.coin(1, 2) { (ga, gb) } else { (gb, ga) };
+                let names: Vec<Name> = (0..k as Name).collect();
+                let idp: BTreeMap<Name, Name> = names.iter().map(|n| (*n, *n)).collect();
+                let leaf = |o: &str, perm: &BTreeMap<Name, Name>| Tm::leaf(o, &names.iter().map(|n| perm[n]).collect::<Vec<_>>());
+                let kk = |t: Tm| Arg::K(vec![], t);
+                // a context: (kind, name, permutation for a second use)
+                let mk_ctx = |src: &mut Src| -> (usize, Name, BTreeMap<Name, Name>) { (src.pick(7), names[src.pick(k)], random_perm(&names, src)) };
+                let fill = |(kind, x, tau): &(usize, Name, BTreeMap<Name, Name>), inner: &Tm| -> Tm {
+                    match kind {
+                        0 => Tm::node("w", vec![kk(inner.clone())]),
+                        1 => Tm::node("p", vec![kk(inner.clone()), kk(Tm::leaf("v", &[*x]))]),
+                        2 => Tm::node("p", vec![kk(Tm::leaf("v", &[*x])), kk(inner.clone())]),
+                        3 => Tm::node("lam", vec![Arg::K(vec![*x], inner.clone())]),
+                        4 => Tm::node("p", vec![kk(inner.clone()), kk(unfreshen(&inner.rename_free(tau)))]),
+                        5 if has("q2") => Tm::node("q2", vec![Arg::S(*x), kk(inner.clone())]),
+                        _ => Tm::node("w", vec![kk(Tm::node("w", vec![kk(inner.clone())]))]),
+                    }
+                };
+                let c1 = mk_ctx(&mut src);
+                let c2 = mk_ctx(&mut src);
+                let pi1 = if src.coin(1, 2) { idp.clone() } else { random_perm(&names, &mut src) };
+                let pi2 = if src.coin(1, 2) { idp.clone() } else { random_perm(&names, &mut src) };
+                let rho = if src.coin(1, 2) { idp.clone() } else { random_perm(&names, &mut src) };
+                let pa = fill(&c1, &leaf(ga, &pi1));
+                let pb = fill(&c1, &leaf(gb, &pi2));
+                let gp = fill(&c2, &unfreshen(&pa.rename_free(&rho)));
+                let gens_a: Vec<BTreeMap<Name, Name>> = (0..src.pick(3)).map(|_| random_perm(&names, &mut src)).collect();
+                let gens_b: Vec<BTreeMap<Name, Name>> = (0..src.pick(3)).map(|_| random_perm(&names, &mut src)).collect();
+                let ia = push_add(leaf(ga, &idp), &mut ops, &mut terms, &mut n_terms);
+                let ib = if ga == gb { ia } else { push_add(leaf(gb, &idp), &mut ops, &mut terms, &mut n_terms) };
+                let mut events: Vec<usize> = (0..7).collect();
+                for i in (1..events.len()).rev() {
+                    let j = src.pick(i + 1);
+                    events.swap(i, j);
+                }
+                let mut ipa: Option<usize> = None;
+                for e in events {
+                    match e {
+                        0 => {
+                            for g in &gens_a {
+                                let j = push_add(leaf(ga, g), &mut ops, &mut terms, &mut n_terms);
+                                ops.push(if src.coin(1, 2) { HOp::Union(ia, j) } else { HOp::Union(j, ia) });
+                            }
+                        }
+                        1 => {
+                            for g in &gens_b {
+                                let j = push_add(leaf(gb, g), &mut ops, &mut terms, &mut n_terms);
+                                ops.push(if src.coin(1, 2) { HOp::Union(ib, j) } else { HOp::Union(j, ib) });
+                            }
+                        }
+                        2 => {
+                            if ipa.is_none() {
+                                ipa = Some(push_add(pa.clone(), &mut ops, &mut terms, &mut n_terms));
+                            }
+                        }
+                        3 => {
+                            if src.coin(2, 3) {
+                                push_add(pb.clone(), &mut ops, &mut terms, &mut n_terms);
+                            }
+                        }
+                        4 => {
+                            // a further term over the parent's names, united with the parent
+                            let fvp: Vec<Name> = pa.fv().into_iter().collect();
+                            if src.coin(2, 3) && (2..=3).contains(&fvp.len()) {
+                                let i = match ipa {
+                                    Some(i) => i,
+                                    None => {
+                                        let i = push_add(pa.clone(), &mut ops, &mut terms, &mut n_terms);
+                                        ipa = Some(i);
+                                        i
+                                    }
+                                };
+                                let sg = random_perm(&fvp, &mut src);
+                                let args: Vec<Name> = fvp.iter().map(|n| if src.coin(1, 2) { *n } else { sg[n] }).collect();
+                                let args: Vec<Name> = if args.iter().collect::<BTreeSet<_>>().len() == args.len() { args } else { fvp.clone() };
+                                let o = if fvp.len() == 2 { "f2" } else if ga == "g3" && gb == "g3" { "h3" } else if k == 4 { "g3" } else { "f2" };
+                                let t = if o == "f2" && fvp.len() == 3 { Tm::node("p", vec![kk(Tm::leaf("f2", &args[0..2])), kk(Tm::leaf("v", &args[2..3]))]) } else { Tm::leaf(o, &args) };
+                                let j = push_add(t, &mut ops, &mut terms, &mut n_terms);
+                                ops.push(if src.coin(1, 2) { HOp::Union(i, j) } else { HOp::Union(j, i) });
+                                // extra members make either class the bigger one
+                                for _ in 0..src.pick(3) {
+                                    let e = Tm::node("w", vec![kk(Tm::node("w", vec![kk(terms[if src.coin(1, 2) { i } else { j }].clone())]))]);
+                                    push_add(e, &mut ops, &mut terms, &mut n_terms);
+                                }
+                            }
+                        }
+                        5 => {
+                            if src.coin(3, 4) {
+                                push_add(gp.clone(), &mut ops, &mut terms, &mut n_terms);
+                            }
+                        }
+                        _ => {
+                            if ia != ib {
+                                ops.push(if src.coin(1, 2) { HOp::Union(ia, ib) } else { HOp::Union(ib, ia) });
+                            }
+                        }
+                    }
                 }
             }
             9 => {
